@@ -329,6 +329,45 @@ def main():
     L.append("/-- `QuicSendStream::finish`: no path returns before `stopped().await` -/")
     L.append(f"abbrev FINISH_AWAITS_STOPPED : Bool := {'false' if early else 'true'}")
 
+    # ---- tls.rs / config.rs: protocol versions, ALPN lists, pass-through of keep-alive and migration
+    rel3 = "wtransport/src/tls.rs"
+    s3 = strip_tests(rd(repo, rel3))
+    vers = re.findall(r"\.with_protocol_versions\(&\[(.*?)\]\)", s3, re.S)
+    if len(vers) < 2:
+        raise Missing(f"{rel3}: with_protocol_versions of the default client and server TLS configurations")
+    vers = [[v.strip().lstrip("&").split("::")[-1] for v in x.split(",") if v.strip()] for x in vers]
+    ex["TLS_PROTOCOL_VERSIONS"] = vers
+    L.append("/-- protocol versions of every default TLS configuration built in tls.rs -/")
+    L.append("def TLS_PROTOCOL_VERSIONS : List (List String) := [" +
+             ", ".join("[" + ", ".join(f'"{v}"' for v in x) + "]" for x in vers) + "]")
+    alpns = re.findall(r"alpn_protocols\s*=\s*\[(.*?)\]\.to_vec\(\)", s3, re.S)
+    if len(alpns) < 2:
+        raise Missing(f"{rel3}: alpn_protocols of the default client and server TLS configurations")
+    alpns = [[v.strip() for v in x.split(",") if v.strip()] for x in alpns]
+    ex["TLS_ALPN_LISTS"] = alpns
+    L.append("/-- ALPN lists of every default TLS configuration built in tls.rs -/")
+    L.append("def TLS_ALPN_LISTS : List (List String) := [" +
+             ", ".join("[" + ", ".join(f'"{v}"' for v in x) + "]" for x in alpns) + "]")
+    rel4 = "wtransport/src/config.rs"
+    s4 = strip_tests(rd(repo, rel4))
+    ka = re.findall(r"pub fn keep_alive_interval\(mut self, interval: Option<Duration>\) -> Self \{\s*(.*?)\s*self\s*\}", s4, re.S)
+    if len(ka) < 2:
+        raise Missing(f"{rel4}: keep_alive_interval of both builders")
+    ka_ok = all(re.fullmatch(r"self\.0\.transport_config\.keep_alive_interval\(interval\);", k.strip()) for k in ka)
+    ex["KEEP_ALIVE_PASSED_UNCHANGED"] = ka_ok
+    L.append("/-- both builders hand the keep-alive interval to quinn unchanged -/")
+    L.append(f"abbrev KEEP_ALIVE_PASSED_UNCHANGED : Bool := {'true' if ka_ok else 'false'}")
+    mg_set = re.search(r"pub fn allow_migration\(mut self, value: bool\) -> Self \{\s*self\.0\.migration = value;\s*self\s*\}", s4)
+    mg_use = re.search(r"quic_config\.migration\(self\.0\.migration\);", s4)
+    mg_def = re.search(r"migration: (true|false),", s4)
+    need(mg_def, f"{rel4}: default of the migration setting")
+    mg_ok = bool(mg_set and mg_use)
+    ex["MIGRATION_PASSED_UNCHANGED"] = mg_ok
+    ex["MIGRATION_DEFAULT"] = mg_def.group(1) == "true"
+    L.append("/-- `allow_migration(v)` stores `v` and `build` hands exactly that to quinn -/")
+    L.append(f"abbrev MIGRATION_PASSED_UNCHANGED : Bool := {'true' if mg_ok else 'false'}")
+    L.append(f"abbrev MIGRATION_DEFAULT : Bool := {mg_def.group(1)}")
+
     # ---- driver/streams/settings.rs advertised settings
     rel = "wtransport/src/driver/streams/settings.rs"
     s = rd(repo, rel)
